@@ -158,6 +158,9 @@ def opsMinibex (op : String) (ins outs : List String) : Option String :=
           else if o == "dimexception" then "ok rejected-by-DimException"
           else if o == "parsed" then "FAIL text-rejected-by-the-reference-grammar-accepted"
           else s!"FAIL malformed-text-{o}")
+  | "mbxouter", _, o :: _ =>
+    pure (if o == "syntaxerror" || o == "dimexception" then "ok outer-product-rejected"
+          else s!"FAIL text-with-outer-product-{o}")
   | "mbxmut", _ :: "unsupported" :: _, o :: _ =>
     pure (if o == "exception:bad_alloc" then "ok resource-limit" else
           if o == "syntaxerror" || o == "parsed" || o == "dimexception" then s!"ok outside-reference-fragment-{o}"
